@@ -8,13 +8,16 @@ import (
 	"go/token"
 	"io"
 	"reflect"
+	"sort"
 	"strings"
+	"unsafe"
 
 	"github.com/dave/dst"
 	"github.com/dave/dst/decorator"
 
 	"verif/internal/fw"
 	"verif/internal/obs"
+	"verif/internal/refl"
 )
 
 func init() {
@@ -66,6 +69,32 @@ func runC19(c *fw.Ctx) {
 				})
 			}
 		}
+	}
+	// the lists of a freshly decorated tree are lists of their own: no two of them (reached through
+	// any field, File.Imports included) live in one backing array, so that an operation on one can
+	// never show in another
+	zoo := layoutZoo()
+	var zk []string
+	for k := range zoo {
+		zk = append(zk, k)
+	}
+	sort.Strings(zk)
+	for zi, k := range zk {
+		if !c.Mine(zi) {
+			continue
+		}
+		id := "decorated-lists:" + k
+		c.Case(id, func() {
+			f, err := decorator.Parse(zoo[k])
+			if err != nil {
+				return
+			}
+			c19Disjoint(c, id, f, zoo[k])
+			d2 := decorator.NewDecoratorWithImports(token.NewFileSet(), "example.com/self", goast.New())
+			if f2, err := d2.Parse(zoo[k]); err == nil {
+				c19Disjoint(c, id+" [imports]", f2, zoo[k])
+			}
+		})
 	}
 	n := c.Pick(60000, 3000000)
 	for i := 0; i < n; i++ {
@@ -341,6 +370,73 @@ func c19History(c *fw.Ctx, id string, i int) {
 	}
 	if i < 40 {
 		c.Sample(map[string]interface{}{"case": id, "ops": kinds, "final": model})
+	}
+}
+
+// c19Disjoint collects every decoration list reachable from a tree by reflection (all fields, not
+// only the ones the walk follows) and requires their backing arrays to be pairwise disjoint.
+func c19Disjoint(c *fw.Ctx, id string, root dst.Node, src string) {
+	type span struct {
+		lo, hi uintptr
+		where  string
+		hdr    uintptr
+	}
+	var spans []span
+	seenPtr := map[uintptr]bool{}
+	seenHdr := map[uintptr]bool{}
+	decsType := reflect.TypeOf(dst.Decorations{})
+	var walk func(v reflect.Value, where string, depth int)
+	walk = func(v reflect.Value, where string, depth int) {
+		if depth > 200 {
+			return
+		}
+		switch v.Kind() {
+		case reflect.Ptr, reflect.Interface:
+			if v.IsNil() {
+				return
+			}
+			if v.Kind() == reflect.Ptr {
+				if seenPtr[v.Pointer()] {
+					return
+				}
+				seenPtr[v.Pointer()] = true
+			}
+			walk(v.Elem(), where, depth+1)
+		case reflect.Struct:
+			for i := 0; i < v.NumField(); i++ {
+				walk(v.Field(i), where+"."+v.Type().Field(i).Name, depth+1)
+			}
+		case reflect.Slice:
+			if v.Type() == decsType {
+				if v.CanAddr() && v.Cap() > 0 {
+					h := v.Addr().Pointer()
+					if !seenHdr[h] {
+						seenHdr[h] = true
+						spans = append(spans, span{v.Pointer(), v.Pointer() + uintptr(v.Cap())*unsafe.Sizeof(""), where, h})
+					}
+				}
+				return
+			}
+			for i := 0; i < v.Len(); i++ {
+				walk(v.Index(i), fmt.Sprintf("%s[%d]", where, i), depth+1)
+			}
+		case reflect.Map:
+			for _, k := range v.MapKeys() {
+				walk(v.MapIndex(k), where+"[...]", depth+1)
+			}
+		}
+	}
+	walk(reflect.ValueOf(root), refl.TypeName(root), 0)
+	sort.Slice(spans, func(i, j int) bool { return spans[i].lo < spans[j].lo })
+	for i := 1; i < len(spans); i++ {
+		if spans[i].lo < spans[i-1].hi {
+			c.Violate("lists-share-storage", "lists-share-storage", fmt.Sprintf("%s: the decoration lists at %s and %s of a freshly decorated tree live in one backing array", id, spans[i-1].where, spans[i].where), src)
+			return
+		}
+	}
+	c.Count("decorated_lists_checked", int64(len(spans)))
+	if len(spans) > 3 {
+		c.Nontrivial(id)
 	}
 }
 
